@@ -178,6 +178,17 @@ def rep_in_block_case(rng):
     return s, ("repblock", (L + 1) * (R + 1), None)
 
 
+def abandon_case(rng):
+    """A block abandoned by writing 1 to the in-loop flag (`mov #0x10, icr`, the write-one-to-clear LP bit), followed by a
+    fresh block repeat:  bkrep #N { modr r1+ ; mov #0x10, icr } ; bkrep #M { modr r0+ }  ->  r0 = M+1, and the in-loop
+    state (lp, bcn) is clear after the second loop has finished."""
+    N = rng.choice([1, 2, 3, 7])
+    M = rng.choice([0, 1, 2, 5, 0x20])
+    words = [0x5C00 | N, 0x0103, 0x0089, 0x4F90, 0x5C00 | M, 0x0106, 0x0088, IDLE]
+    s = ["bus new own"] + load(words) + ["bus run %x" % (M + 30)] + finish()
+    return s, ("abandon", M + 1, None)
+
+
 def frame_cases(rng, n):
     """bkrepsto ; bkreprst through the stack and through an address register: the frames, level and flag come back
     (frames with start and end in different 64K pages included)."""
@@ -303,6 +314,8 @@ def expected_count(script):
         return pokes.get("r%d" % k, 0) + 1 if k < 6 else None
     if w == 0x0002:
         return pokes.get("r6", 0) + 1
+    if w & 0xFF00 == 0x5C00 and prog.get(0x103) == 0x4F90 and prog.get(0x104, 0) & 0xFF00 == 0x5C00:
+        return (prog[0x104] & 0xFF) + 1          # abandoned first block, then a fresh one
     if w & 0xFF00 == 0x5C00 and prog.get(0x103, 0) & 0xFF00 == 0x0C00 and prog.get(0x102) == 0x0089:
         return ((w & 0xFF) + 1) * ((prog[0x103] & 0xFF) + 1)
     if w & 0xFF00 == 0x5C00:
@@ -349,6 +362,8 @@ def explore(rng, tier, replay=None):
         scripts.append(bkrep_case(rng)[0])
         scripts.append(twin_case(rng)[0])
         scripts.append(rep_in_block_case(rng)[0])
+        if _ % 4 == 0:
+            scripts.append(abandon_case(rng)[0])
     scripts.append(five_deep(rng)[0])
     scripts += frame_cases(rng, 400 if tier == "quick" else 20000)
     # every immediate count once
@@ -362,7 +377,8 @@ def explore(rng, tier, replay=None):
                              "(r0) is compared ON THE IMPLEMENTATION with N+1 resp. the product of the (Ni+1), and rep/lp/bcn must be "
                              "clear afterwards; twins: a loop program against its body unrolled N+1 times, compared on every register "
                              "except pc and the stale loop frames and on the data memory written; a fifth nesting level (assertion); "
-                             "all scripts compared line by line with the model; a repeat whose target is the last instruction of a "
+                             "a block abandoned through the write-one-to-clear in-loop flag followed by a fresh block (count and cleared in-loop state "
+                             "judged on the implementation); all scripts compared line by line with the model; a repeat whose target is the last instruction of a "
                              "block; bkrepsto;bkreprst round trips (stack and address-register forms, 1..4 levels, frames crossing 64K "
                              "pages) judged on the implementation; the rep/bkrep/break/bkrepsto/bkreprst instruction families from "
                              "seeded, boundary and loop-state variants")
